@@ -121,6 +121,88 @@ func init() {
 		}
 		l.def("c14ResponseFileFmt", "String", strconv.Quote(respFmt), "pkg/hook/hook.go prepareAdmissionResponseFile: fmt.Sprintf format")
 		l.def("c14ResponseFileArgs", "List String", leanStrList(respArgs), "pkg/hook/hook.go prepareAdmissionResponseFile: fmt.Sprintf arguments")
+		// the name of a run's binding context file: format string and arguments of the fmt.Sprintf in
+		// Hook.prepareBindingContextJsonFile (same per-run uuid mechanism)
+		ctxFmt, ctxArgs := "", []string{}
+		if fd := findFunc("pkg/hook/hook.go", "Hook", "prepareBindingContextJsonFile"); fd != nil && fd.Body != nil {
+			n := 0
+			ast.Inspect(fd.Body, func(x ast.Node) bool {
+				call, ok := x.(*ast.CallExpr)
+				if !ok {
+					return true
+				}
+				sel, ok := call.Fun.(*ast.SelectorExpr)
+				if !ok || sel.Sel.Name != "Sprintf" || len(call.Args) == 0 {
+					return true
+				}
+				lit, ok := call.Args[0].(*ast.BasicLit)
+				if !ok || lit.Kind != token.STRING {
+					stale = true
+					return true
+				}
+				n++
+				ctxFmt, _ = strconv.Unquote(lit.Value)
+				for _, a := range call.Args[1:] {
+					ctxArgs = append(ctxArgs, srcOf(a))
+				}
+				return true
+			})
+			if n != 1 {
+				stale = true
+			}
+		} else {
+			stale = true
+		}
+		l.def("c14ContextFileFmt", "String", strconv.Quote(ctxFmt), "pkg/hook/hook.go prepareBindingContextJsonFile: fmt.Sprintf format")
+		l.def("c14ContextFileArgs", "List String", leanStrList(ctxArgs), "pkg/hook/hook.go prepareBindingContextJsonFile: fmt.Sprintf arguments")
+
+		// where the BindingContext slice of a request comes from: for every return of
+		// AdmissionBindingsController.HandleEvent the source of the BindingContext field of the returned
+		// composite literal (a slice literal = built in this call, once per request), and the type of the
+		// composite literal the local `bc` is declared with
+		ctxExprs, bcType := []string{}, ""
+		if fd := findFunc("pkg/hook/controller/admission_bindings_controller.go", "AdmissionBindingsController", "HandleEvent"); fd != nil && fd.Body != nil {
+			ast.Inspect(fd.Body, func(x ast.Node) bool {
+				switch n := x.(type) {
+				case *ast.FuncLit:
+					return false
+				case *ast.ReturnStmt:
+					if len(n.Results) != 1 {
+						ctxExprs = append(ctxExprs, "<not one result>")
+						return true
+					}
+					cl, ok := n.Results[0].(*ast.CompositeLit)
+					if !ok {
+						ctxExprs = append(ctxExprs, "<not a literal: "+srcOf(n.Results[0])+">")
+						return true
+					}
+					found := "<no BindingContext field>"
+					for _, el := range cl.Elts {
+						if kv, ok := el.(*ast.KeyValueExpr); ok {
+							if id, ok := kv.Key.(*ast.Ident); ok && id.Name == "BindingContext" {
+								found = srcOf(kv.Value)
+							}
+						}
+					}
+					ctxExprs = append(ctxExprs, found)
+				case *ast.AssignStmt:
+					if n.Tok == token.DEFINE && len(n.Lhs) == 1 && len(n.Rhs) == 1 {
+						if id, ok := n.Lhs[0].(*ast.Ident); ok && id.Name == "bc" {
+							if cl, ok := n.Rhs[0].(*ast.CompositeLit); ok && cl.Type != nil {
+								bcType = srcOf(cl.Type)
+							} else {
+								bcType = "<not a literal: " + srcOf(n.Rhs[0]) + ">"
+							}
+						}
+					}
+				}
+				return true
+			})
+		} else {
+			stale = true
+		}
+		l.def("c14HandleEventCtxExprs", "List String", leanStrList(ctxExprs), "pkg/hook/controller/admission_bindings_controller.go HandleEvent: BindingContext of every returned BindingExecutionInfo")
+		l.def("c14HandleEventBcType", "String", strconv.Quote(bcType), "pkg/hook/controller/admission_bindings_controller.go HandleEvent: bc := <type>{…}")
 		l.def("c14FactsStale", "Bool", map[bool]string{true: "true", false: "false"}[stale], "extractor: a syntactic shape it expects was not found")
 	})
 }
